@@ -6,6 +6,7 @@ package main
 
 import (
 	"fmt"
+	"sort"
 	"go/token"
 	"go/types"
 
@@ -84,5 +85,253 @@ func ruleC18UintToInt(p *Prog, a *Anchors, r *Report) {
 				}
 			}
 		}
+	}
+}
+
+// R-C18-WRAP: "for all arguments, including negative, huge and out-of-range ones". Value.Integer() saturates: it hands
+// out every int, the smallest and the largest included. A sum, difference or product formed directly from such a
+// number, with nothing having looked at it before, wraps around at the ends of the range: MinInt − 3 is a huge
+// positive width (ljust refuses where it should pad nothing), MaxInt + 1 is negative (add flips the sign). Every
+// integer +, − or × in execution code one of whose operands is a number read off a template value is therefore reached
+// only after a comparison that involves that number (a range test, a clamp, an overflow pre-check), or adds/subtracts
+// a constant to a number that was compared before.
+func ruleC18Wrap(p *Prog, a *Anchors, r *Report) {
+	r.Begin("R-C18-WRAP", "integer +, − and × on a number read off a template value (Value.Integer()) happen only after a comparison involving that number: results do not wrap around at the ends of the int range", 2)
+	integer := p.Method("Value", "Integer")
+	if integer == nil {
+		r.Unk("anchor", "-", "anchor unresolved: (*Value).Integer")
+		return
+	}
+	// the filters and what they call statically (their helpers); the arithmetic of expressions is Go's, by C07
+	scope := map[*ssa.Function]bool{}
+	for _, ff := range a.FilterFuncs {
+		for _, g := range clusterOf(p, ff, 3) {
+			scope[g] = true
+		}
+	}
+	n := 0
+	for _, f := range p.inPkgFuncsSorted(p.allFuncSet()) {
+		if !scope[topLevel(f)] && !scope[f] {
+			continue
+		}
+		if f == integer || a.Value != nil && f.Signature.Recv() != nil && structOf(f.Signature.Recv().Type()) == a.Value {
+			continue // the value layer itself
+		}
+		k := 0
+		for _, b := range f.Blocks {
+			for _, in := range b.Instrs {
+				bo, ok := in.(*ssa.BinOp)
+				if !ok || (bo.Op != token.ADD && bo.Op != token.SUB && bo.Op != token.MUL) || !isIntType(bo.Type()) {
+					continue
+				}
+				var srcs []ssa.Value
+				for _, side := range []ssa.Value{bo.X, bo.Y} {
+					if src := c18LooseInteger(p, integer, side, 0); src != nil {
+						srcs = append(srcs, src)
+					}
+				}
+				if len(srcs) == 0 {
+					continue
+				}
+				k++
+				n++
+				key := fmt.Sprintf("%s:%s#%d", p.FuncName(f), bo.Op, k)
+				looked := Guarded(in, func(c ssa.Value, pol bool) bool {
+					for _, src := range srcs {
+						if c18Mentions(p, c, src, 0) {
+							return true
+						}
+					}
+					return false
+				})
+				if looked {
+					r.OK(key, p.InstrPos(in), "reached only after a comparison that involves %s", p.VN(srcs[0]))
+				} else {
+					r.Bad(key, p.InstrPos(in), "%s is computed directly from %s, a number read off a template value that nothing has compared with anything yet: at the ends of the int range (Integer() saturates there) the result wraps around — a huge negative width becomes a huge positive padding, a sum of large numbers flips its sign", p.VN(bo), p.VN(srcs[0]))
+				}
+			}
+		}
+	}
+	if n == 0 {
+		r.Unk("none", "-", "no integer arithmetic on Integer() results found")
+	}
+}
+
+// c18LooseInteger: v is the result of (*Value).Integer() (through conversions, local cells and phis): returns the call.
+func c18LooseInteger(p *Prog, integer *ssa.Function, v ssa.Value, d int) ssa.Value {
+	if d > 4 {
+		return nil
+	}
+	switch x := v.(type) {
+	case *ssa.Call:
+		if x.Common().StaticCallee() == integer {
+			return x
+		}
+	case *ssa.Convert:
+		if isIntType(x.X.Type()) {
+			return c18LooseInteger(p, integer, x.X, d+1)
+		}
+	case *ssa.ChangeType:
+		return c18LooseInteger(p, integer, x.X, d+1)
+	case *ssa.UnOp:
+		if sv := stripLoad(x); sv != ssa.Value(x) {
+			return c18LooseInteger(p, integer, sv, d+1)
+		}
+	case *ssa.Parameter:
+		// a helper that is handed such a number: the parameter stands for it
+		for _, s := range paramActualSites(p, x) {
+			if c18LooseInteger(p, integer, s.val, d+1) != nil {
+				return x
+			}
+		}
+	}
+	return nil
+}
+
+// c18Mentions: the condition c compares something that is, or is computed from, src.
+func c18Mentions(p *Prog, c ssa.Value, src ssa.Value, d int) bool {
+	if d > 5 || c == nil {
+		return false
+	}
+	if c == src || p.VN(c) == p.VN(src) {
+		return true
+	}
+	switch x := c.(type) {
+	case *ssa.BinOp:
+		return c18Mentions(p, x.X, src, d+1) || c18Mentions(p, x.Y, src, d+1)
+	case *ssa.Convert:
+		return c18Mentions(p, x.X, src, d+1)
+	case *ssa.ChangeType:
+		return c18Mentions(p, x.X, src, d+1)
+	case *ssa.UnOp:
+		if sv := stripLoad(x); sv != ssa.Value(x) {
+			return c18Mentions(p, sv, src, d+1)
+		}
+		return c18Mentions(p, x.X, src, d+1)
+	case *ssa.Phi:
+		for _, e := range x.Edges {
+			if c18Mentions(p, e, src, d+1) {
+				return true
+			}
+		}
+	}
+	return false
+}
+
+// R-C18-EXACTSTR: "integer … compute the documented value for huge arguments". A string that denotes an integer is
+// read as one: where the value layer turns a string into an int, strconv.ParseFloat is reached only on the error edge
+// of an integer parse of the same text (through a float64 only 53 bits survive: "9007199254740993" became …992, and
+// `n|divisibleby:"9007199254740993"` was False for that very n).
+func ruleC18ExactString(p *Prog, a *Anchors, r *Report) {
+	r.Begin("R-C18-EXACTSTR", "Value.Integer() reads a string through strconv.ParseFloat only after an integer parse (ParseInt/ParseUint/Atoi) of it failed", 1)
+	f := p.Method("Value", "Integer")
+	if f == nil {
+		r.Unk("anchor", "-", "anchor unresolved: (*Value).Integer")
+		return
+	}
+	n := 0
+	for _, g := range clusterOf(p, f, 2) {
+		for _, b := range g.Blocks {
+			for _, in := range b.Instrs {
+				c, ok := in.(*ssa.Call)
+				if !ok || c.Common().StaticCallee() == nil || p.extName(c.Common().StaticCallee()) != "strconv.ParseFloat" {
+					continue
+				}
+				n++
+				key := p.FuncName(g) + ":ParseFloat"
+				after := Guarded(in, func(cond ssa.Value, pol bool) bool {
+					x, eq, isNil := condIsNilTest(cond)
+					if !isNil || eq == pol {
+						return false // needs the err != nil edge
+					}
+					ex, ok := x.(*ssa.Extract)
+					if !ok {
+						return false
+					}
+					ic, ok := ex.Tuple.(*ssa.Call)
+					if !ok || ic.Common().StaticCallee() == nil {
+						return false
+					}
+					switch p.extName(ic.Common().StaticCallee()) {
+					case "strconv.ParseInt", "strconv.ParseUint", "strconv.Atoi":
+						return p.VN(ic.Common().Args[0]) == p.VN(c.Common().Args[0])
+					}
+					return false
+				})
+				if after {
+					r.OK(key, p.InstrPos(in), "the text is read as a float only after it failed to parse as an integer")
+				} else {
+					r.Bad(key, p.InstrPos(in), "%s turns a string into an int through strconv.ParseFloat alone: an integer beyond 2^53 written as text loses its low digits (\"9007199254740993\"|integer is …992), and integer arguments given as strings compare unequal to the same number", p.FuncName(g))
+				}
+			}
+		}
+	}
+	if n == 0 {
+		r.Trivial("none", "-", "Value.Integer() does not go through ParseFloat")
+	}
+}
+
+// R-C18-PTRFMT: "stringformat computes the documented value" also for a pointer to a number or string (a *int field of
+// the caller's struct prints as the number everywhere else). A filter that formats its input with a format the
+// template gives (fmt.Sprintf(param.String(), x)) does not hand fmt the raw Interface() of the input on every path:
+// fmt prints a pointer to a scalar as an address.
+func ruleC18PtrFormat(p *Prog, a *Anchors, r *Report) {
+	r.Begin("R-C18-PTRFMT", "a filter that formats its input with a template-given format does not pass the input's raw Interface() to fmt on every path (a pointer to a number or string is formatted as what it points to)", 1)
+	iface := p.Method("Value", "Interface")
+	if iface == nil {
+		r.Unk("anchor", "-", "anchor unresolved: (*Value).Interface")
+		return
+	}
+	n := 0
+	var names []string
+	for name := range a.FilterFuncs {
+		names = append(names, name)
+	}
+	sort.Strings(names)
+	seenSite := map[ssa.Instruction]bool{}
+	for _, name := range names {
+		for _, g := range clusterOf(p, a.FilterFuncs[name], 1) {
+			for _, b := range g.Blocks {
+				for _, in := range b.Instrs {
+					c, ok := in.(*ssa.Call)
+					if !ok || seenSite[in] || c.Common().StaticCallee() == nil || p.extName(c.Common().StaticCallee()) != "fmt.Sprintf" {
+						continue
+					}
+					if _, isC := c.Common().Args[0].(*ssa.Const); isC {
+						continue
+					}
+					if fc, isCall := c.Common().Args[0].(*ssa.Call); isCall && fc.Common().StaticCallee() != nil && p.extName(fc.Common().StaticCallee()) == "fmt.Sprintf" {
+						continue // a computed width (Sprintf(Sprintf("%%%ds", n), …)): the format is the engine's
+					}
+					vals := varargValues(c.Common().Args[1])
+					if len(vals) == 0 {
+						continue
+					}
+					seenSite[in] = true
+					raw := false
+					for _, v := range vals {
+						if mi, ok := v.(*ssa.MakeInterface); ok {
+							v = mi.X
+						}
+						ic, ok := stripLoad(v).(*ssa.Call)
+						if !ok || ic.Common().StaticCallee() != iface {
+							continue
+						}
+						if _, isParam := ic.Common().Args[0].(*ssa.Parameter); isParam {
+							raw = true
+						}
+					}
+					n++
+					if raw {
+						r.Bad("filter "+name+":formats-raw", p.InstrPos(in), "the filter hands fmt the input's Interface() as it is, with a format the template gives: a pointer to a number or string (a *int field) is printed as an address (%%d) or as %%!s(*string=0x…), not as the value every other filter and {{ }} see")
+					} else {
+						r.OK("filter "+name+":formats", p.InstrPos(in), "what is formatted is not the raw Interface() of the input on every path")
+					}
+				}
+			}
+		}
+	}
+	if n == 0 {
+		r.Trivial("none", "-", "no filter formats its input with a template-given format")
 	}
 }
